@@ -70,6 +70,25 @@ impl Write for ShortW {
     }
 }
 
+/// Iterator contract of a record-set iterator (C20): after every item taken the size hint brackets the
+/// number of items still to come (`n` items in all), `None` comes exactly after the n-th item and is
+/// repeated afterwards.
+fn iter_contract_ok<I: Iterator>(mut it: I, n: usize) -> bool {
+    for k in 0..=n {
+        let (lo, hi) = it.size_hint();
+        let rem = n - k;
+        if lo > rem || hi.map_or(false, |h| h < rem) {
+            return false;
+        }
+        let x = it.next();
+        if (k < n) != x.is_some() {
+            return false;
+        }
+    }
+    let (lo, _) = it.size_hint();
+    lo == 0 && it.next().is_none() && it.next().is_none()
+}
+
 fn unhex(s: &str) -> Vec<u8> {
     if s == "-" {
         return vec![];
@@ -528,6 +547,9 @@ fn run_fa(out: &mut dyn Write, cap: usize, src: Src, pol: PolSpec, ops: &[Op], l
                             if n != recs.len() || set.is_empty() != (n == 0) {
                                 return format!("set-len-mismatch {} {}", n, recs.len());
                             }
+                            if !iter_contract_ok((&*set).into_iter(), n) {
+                                return "set-iter-contract-broken".to_string();
+                            }
                             set_str(n, recs)
                         }
                     })
@@ -544,6 +566,9 @@ fn run_fa(out: &mut dyn Write, cap: usize, src: Src, pol: PolSpec, ops: &[Op], l
                             if n != recs.len() || set.is_empty() != (n == 0) {
                                 return format!("set-len-mismatch {} {}", n, recs.len());
                             }
+                            if !iter_contract_ok((&*set).into_iter(), n) {
+                                return "set-iter-contract-broken".to_string();
+                            }
                             set_str(n, recs)
                         }
                     })
@@ -553,6 +578,9 @@ fn run_fa(out: &mut dyn Write, cap: usize, src: Src, pol: PolSpec, ops: &[Op], l
                     let set = &sets[*slot];
                     guarded(|| {
                         let recs: Vec<String> = set.into_iter().map(|r| dump_fa(&r)).collect();
+                        if !iter_contract_ok(set.into_iter(), set.len()) {
+                            return "set-iter-contract-broken".to_string();
+                        }
                         set_str(set.len(), recs)
                     })
                 }
@@ -676,6 +704,9 @@ fn run_fq(out: &mut dyn Write, cap: usize, src: Src, pol: PolSpec, ops: &[Op], l
                             if n != recs.len() || set.is_empty() != (n == 0) {
                                 return format!("set-len-mismatch {} {}", n, recs.len());
                             }
+                            if !iter_contract_ok((&*set).into_iter(), n) {
+                                return "set-iter-contract-broken".to_string();
+                            }
                             set_str(n, recs)
                         }
                     })
@@ -692,6 +723,9 @@ fn run_fq(out: &mut dyn Write, cap: usize, src: Src, pol: PolSpec, ops: &[Op], l
                             if n != recs.len() || set.is_empty() != (n == 0) {
                                 return format!("set-len-mismatch {} {}", n, recs.len());
                             }
+                            if !iter_contract_ok((&*set).into_iter(), n) {
+                                return "set-iter-contract-broken".to_string();
+                            }
                             set_str(n, recs)
                         }
                     })
@@ -701,6 +735,9 @@ fn run_fq(out: &mut dyn Write, cap: usize, src: Src, pol: PolSpec, ops: &[Op], l
                     let set = &sets[*slot];
                     guarded(|| {
                         let recs: Vec<String> = set.into_iter().map(|r| dump_fq(&r)).collect();
+                        if !iter_contract_ok(set.into_iter(), set.len()) {
+                            return "set-iter-contract-broken".to_string();
+                        }
                         set_str(set.len(), recs)
                     })
                 }
